@@ -19,9 +19,11 @@ import (
 	"fmt"
 	"net/url"
 	"os"
+	"os/signal"
 	"path/filepath"
 	"sort"
 	"strings"
+	"syscall"
 )
 
 func init() {
@@ -60,6 +62,7 @@ type c19Step struct {
 	Page   map[string]string    `json:"page,omitempty"`   // query of the page whose menu is read
 	Raw    string               `json:"raw,omitempty"`    // seed: contents written to settings.json
 	Enc    string               `json:"enc,omitempty"`    // "" = form encoding (space "+"), "raw" = %20
+	FailAt string               `json:"fail_at,omitempty"` // the file system accepts only this many bytes during the request: "0" "1" "mid" "last-1" or a number
 }
 
 type c19Case struct {
@@ -450,7 +453,17 @@ func (e *c19Env) runSeq(cs c19Case) (nontrivial bool) {
 			} else {
 				q = url.Values{"config": {st.Name}}
 			}
-			status, body, pn := srv.get(st.request())
+			var status int
+			var body, pn string
+			faulted := false
+			if st.FailAt != "" {
+				k := e.failPosition(srv, st)
+				status, body, pn = c19WithFsize(k, func() (int, string, string) { return srv.get(st.request()) })
+				faulted = status != 200
+				c.Res.Hit(fmt.Sprintf("failed-write:%s:%s:failed=%v", st.Op, st.FailAt, faulted))
+			} else {
+				status, body, pn = srv.get(st.request())
+			}
 			if pn != "" {
 				c.Violation("C19/"+st.Op+"/panic", "handler panics: "+pn, cs)
 				return
@@ -465,6 +478,9 @@ func (e *c19Env) runSeq(cs c19Case) (nontrivial bool) {
 			if !okGo {
 				if after.Exists != before.Exists || !bytes.Equal(after.Raw, before.Raw) {
 					c.Violation("C19/"+st.Op+"/failed-request-changed-file", "request failed ("+c19Trunc(body)+") but the settings file changed", cs)
+				}
+				if faulted {
+					continue // the write failed: "state unchanged" is all the model says, checked above
 				}
 				if _, nb := c19Find(before.Entries, st.Name); st.Op == "delete" && nb > 0 {
 					c.Violation("C19/delete/existing-config-rejected", fmt.Sprintf("configuration %q is in settings.json but deleting it is refused: %s", st.Name, c19Trunc(body)), cs)
@@ -652,13 +668,13 @@ func c19SeqKey(cs c19Case) string {
 			keys = append(keys, k+"="+s.Params[k])
 		}
 		sort.Strings(keys)
-		fmt.Fprintf(&b, "%s/%s/%s/%v/%s;", s.Op, s.Name, strings.Join(keys, "&"), s.Page, s.Enc)
+		fmt.Fprintf(&b, "%s/%s/%s/%v/%s/%s;", s.Op, s.Name, strings.Join(keys, "&"), s.Page, s.Enc, s.FailAt)
 	}
 	return b.String()
 }
 
 func runC19(c *Ctx) {
-	c.Res.Rule = "(i) random sequences (4-12 steps, optional hand-written seed file) of /saveconfig (random subset of URL-carried options; per kind canonical, alternative, invalid and unset spellings), /deleteconfig, menu reads and apply (follow a menu URL, save under a new name) against the real handlers; non-trivial = a save with >=1 non-default option followed by a delete or apply; (i') 120 histories of 7-20 steps on ONE server over 2-3 names (30% plain; 50% a URL-encoded-looking name together with its one- and two-fold URL decodings; 20% awkward: %, +, &, =, #, ?, /, quotes, unicode, 2.8 kB) x 2-3 fixed option sets, requests form-encoded as common.js does or raw with %20 with exactly repeated requests (30% of requests repeat an earlier one), deletes, menu reads and external edits of settings.json between requests (entry dropped, file removed), each step judged against the model and the direct oracle; non-trivial = some request occurs twice; " +
+	c.Res.Rule = "(i) random sequences (4-12 steps, optional hand-written seed file) of /saveconfig (random subset of URL-carried options; per kind canonical, alternative, invalid and unset spellings), /deleteconfig, menu reads and apply (follow a menu URL, save under a new name) against the real handlers; non-trivial = a save with >=1 non-default option followed by a delete or apply; (i'') a fixed grid of 36 histories on one server: {save existing, save new, delete} whose write fails after {0, 1, half, all-but-one} bytes (RLIMIT_FSIZE in-process) followed by {save other, delete other, menu+apply}; (i') 120 histories of 7-20 steps on ONE server over 2-3 names (30% plain; 50% a URL-encoded-looking name together with its one- and two-fold URL decodings; 20% awkward: %, +, &, =, #, ?, /, quotes, unicode, 2.8 kB) x 2-3 fixed option sets, requests form-encoded as common.js does or raw with %20 with exactly repeated requests (30% of requests repeat an earlier one), deletes, menu reads and external edits of settings.json between requests (entry dropped, file removed), each step judged against the model and the direct oracle; non-trivial = some request occurs twice; " +
 		"(ii) one strace'd save per protocol scenario mapped to model ops and judged by fs.accepts; (iii) write error / kill at every write syscall, every byte position (RLIMIT_FSIZE sweep) and at rename; (iv) rounds of 16 concurrent save/delete requests, final file judged per name against all serial orders by the model; distinct by canonical case text"
 	scratch := filepath.Join(c.Dir, fmt.Sprintf("scratch-%d", os.Getpid()))
 	os.RemoveAll(scratch)
@@ -675,6 +691,7 @@ func runC19(c *Ctx) {
 			os.Unsetenv("XDG_CONFIG_HOME")
 		}
 	}()
+	signal.Ignore(syscall.SIGXFSZ) // in-process failed writes (RLIMIT_FSIZE) must return EFBIG, not kill the harness
 	t, terr := c19LoadTable(c)
 	if terr != nil {
 		c.Disagree("C19/table-unavailable", terr.Error(), "regenerated field table Gen/ConfigFields.lean (translator) / model driver", c19Case{Kind: "seq"})
@@ -712,6 +729,14 @@ func runC19(c *Ctx) {
 	// saved options the URL cannot carry (separate stream)
 	if terr == nil {
 		e.sessions(r)
+	}
+	// (i''): fixed grid: a request whose write fails, followed by a request about another name
+	if terr == nil {
+		for _, cs := range c19Grid() {
+			e.runSeq(cs)
+			c.Res.Count("grid:"+c19SeqKey(cs), true)
+			c.Res.Hit("grid-cases")
+		}
 	}
 	// (i'): histories over a small alphabet with repeated identical requests and external edits
 	if terr == nil {
